@@ -1764,6 +1764,7 @@ def run_scenario(seed, shard, idx, tier):
 
 def shard_main(payload):
     seed, shard, lo, hi, tier = payload
+    driver.warm_up()
     agg = {"runs": 0, "steps": 0, "scenarios": 0, "violations": [],
            "behaviours": set(), "fired": {}, "digests": [], "samples": [],
            "per_tool": {}, "ops": {}}
